@@ -62,4 +62,199 @@ theorem splitOnC_joinC (sep : Char) : ∀ (toks : List (List Char)), toks ≠ []
     simp only [joinC]
     rw [splitOnC_append sep t _ ht, ih]
 
+
+/-! ## round 8b — printing a filter and reading it back -/
+
+/-- a bit of an or-fold is a bit of the start value or of one of the folded numbers -/
+theorem foldl_or_testBit (l : List Nat) (a i : Nat) :
+    (l.foldl (· ||| ·) a).testBit i = (a.testBit i || l.any (·.testBit i)) := by
+  induction l generalizing a with
+  | nil => simp
+  | cons x xs ih => simp [List.foldl_cons, ih, Nat.testBit_or, Bool.or_assoc]
+
+/-- reading table names back: the loop ors the values of the entries -/
+theorem parseToks_names_acc (l : List (List Char × Nat)) (h : ∀ e ∈ l, lookupName e.1 = some e.2) (a : Nat) :
+    (l.map (·.1)).foldl orStep a = (l.map (·.2)).foldl (· ||| ·) a := by
+  induction l generalizing a with
+  | nil => rfl
+  | cons e es ih =>
+    have he : lookupName e.1 = some e.2 := h e (by simp)
+    simp only [List.map_cons, List.foldl_cons]
+    rw [show orStep a e.1 = a ||| e.2 by simp [orStep, he]]
+    exact ih (fun x hx => h x (List.mem_cons_of_mem _ hx)) _
+
+theorem parseToks_names (l : List (List Char × Nat)) (h : ∀ e ∈ l, lookupName e.1 = some e.2) :
+    parseToks (l.map (·.1)) = (l.map (·.2)).foldl (· ||| ·) 0 := parseToks_names_acc l h 0
+
+theorem loopCond_iff (f k : Nat) : loopCond f k = true ↔ k ≠ 0 ∧ f &&& k = k := by
+  simp [loopCond]
+
+theorem and_eq_testBit {f k : Nat} (h : f &&& k = k) (i : Nat) (hk : k.testBit i = true) : f.testBit i = true := by
+  have := congrArg (fun x => x.testBit i) h
+  simp only [Nat.testBit_and, hk, Bool.and_true] at this
+  exact this
+
+theorem names_within : ∀ e ∈ namesC, e.2 &&& 8190 = e.2 := by decide
+theorem names_single : ∀ i, i < 13 → (8190 : Nat).testBit i = true → ∃ e ∈ namesC, e.2 = 2 ^ i := by decide
+theorem names_lookup : ∀ e ∈ namesC, lookupName e.1 = some e.2 := by decide
+
+/-- THE BIT-LEVEL LEMMA: the or of all table values contained in `f` (whatever the order in which the map is
+walked) is `f &&& 8190` — every named bit of `f` is itself a table value, and no table value has another bit. -/
+theorem named_or (order : List (List Char × Nat)) (f : Nat) (hp : order.Perm namesC) :
+    ((order.filter (fun e => loopCond f e.2)).map (·.2)).foldl (· ||| ·) 0 = f &&& 8190 := by
+  apply Nat.eq_of_testBit_eq
+  intro i
+  rw [foldl_or_testBit, Nat.testBit_and]
+  rw [Bool.eq_iff_iff]
+  simp only [Nat.zero_testBit, Bool.false_or, List.any_eq_true, List.mem_map, List.mem_filter, Bool.and_eq_true]
+  constructor
+  · rintro ⟨k, ⟨e, ⟨hm, hc⟩, rfl⟩, hb⟩
+    have hn : e ∈ namesC := hp.mem_iff.mp hm
+    obtain ⟨_, hc2⟩ := (loopCond_iff f e.2).mp hc
+    exact ⟨and_eq_testBit hc2 i hb, and_eq_testBit (by rw [Nat.and_comm]; exact names_within e hn) i hb⟩
+  · rintro ⟨hf, h8⟩
+    have hi : i < 13 := by
+      apply Decidable.byContradiction
+      intro hge
+      have hlt : (8190 : Nat) < 2 ^ i := Nat.lt_of_lt_of_le (by decide : (8190 : Nat) < 2 ^ 13)
+        (Nat.pow_le_pow_right (by decide) (Nat.le_of_not_lt hge))
+      rw [Nat.testBit_lt_two_pow hlt] at h8
+      cases h8
+    obtain ⟨e, hn, he⟩ := names_single i hi h8
+    refine ⟨e.2, ⟨e, ⟨hp.mem_iff.mpr hn, ?_⟩, rfl⟩, ?_⟩
+    · rw [loopCond_iff, he]
+      refine ⟨Nat.ne_of_gt (Nat.two_pow_pos i), ?_⟩
+      apply Nat.eq_of_testBit_eq
+      intro j
+      rw [Nat.testBit_and, Nat.testBit_two_pow]
+      by_cases hij : i = j
+      · subst hij; simp [hf]
+      · simp [hij]
+    · rw [he]; exact Nat.testBit_two_pow_self
+
+/-- the characters of a joined text are separators or characters of a token -/
+theorem mem_joinC (sep : Char) : ∀ (toks : List (List Char)) (c : Char), c ∈ joinC sep toks → c = sep ∨ ∃ t ∈ toks, c ∈ t
+  | [], c, h => by simp [joinC] at h
+  | [t], c, h => Or.inr ⟨t, by simp, by simpa [joinC] using h⟩
+  | t :: u :: ts, c, h => by
+    simp only [joinC, List.mem_append, List.mem_cons] at h
+    rcases h with h | h | h
+    · exact Or.inr ⟨t, by simp, h⟩
+    · exact Or.inl h
+    · rcases mem_joinC sep (u :: ts) c h with h | ⟨x, hx, hc⟩
+      · exact Or.inl h
+      · exact Or.inr ⟨x, List.mem_cons_of_mem _ hx, hc⟩
+
+theorem names_noStrip : ∀ e ∈ namesC, ∀ c ∈ e.1, (!Gen.fromStrip.toList.contains c) = true := by decide
+
+theorem joinC_nil_iff (sep : Char) : ∀ (toks : List (List Char)), toks ≠ [] → (∀ t ∈ toks, t ≠ []) → joinC sep toks ≠ []
+  | [], h, _ => absurd rfl h
+  | [t], _, hs => by simpa [joinC] using hs t (by simp)
+  | t :: u :: ts, _, _ => by simp [joinC]
+
+
+/-! ## round 8b — the cluster-wide listing for every member set -/
+
+/-- only peers of `ms` appear in the PeerMaps -/
+def sliceIn (ms : List Nat) (m : List (Nat × List (Nat × Nat))) : Prop := ∀ e ∈ m, ∀ q ∈ keys e.2, q ∈ ms
+
+theorem mem_keys_gAdd {m : List (Nat × Nat)} {p st q : Nat} (h : q ∈ keys (gAdd m p st)) : q = p ∨ q ∈ keys m := by
+  rw [keys_gAdd] at h
+  split at h
+  · exact Or.inr h
+  · rcases List.mem_append.mp h with h | h
+    · exact Or.inr h
+    · exact Or.inl (by simpa using h)
+
+theorem sAdd_in {ms : List Nat} {m : List (Nat × List (Nat × Nat))} (h : sliceIn ms m) (c p st : Nat) (hp : p ∈ ms) :
+    sliceIn ms (sAdd m c p st) := by
+  unfold sAdd
+  split
+  · intro e he q hq
+    obtain ⟨x, hx, rfl⟩ := List.mem_map.mp he
+    split at hq
+    · rcases mem_keys_gAdd hq with rfl | h'
+      · exact hp
+      · exact h x hx q h'
+    · exact h x hx q hq
+  · intro e he q hq
+    rcases List.mem_append.mp he with he | he
+    · exact h e he q hq
+    · simp only [List.mem_singleton] at he
+      subst he
+      rcases mem_keys_gAdd (show q ∈ keys (gAdd [] p st) from hq) with rfl | h'
+      · exact hp
+      · simp [keys] at h'
+
+theorem sliceIn_report {ms : List Nat} (p : Nat) (hp : p ∈ ms) (l : List (Nat × Nat)) :
+    ∀ {m : List (Nat × List (Nat × Nat))}, sliceIn ms m → sliceIn ms (l.foldl (fun m e => sAdd m e.1 p e.2) m) := by
+  induction l with
+  | nil => intro m h; exact h
+  | cons e t ih => intro m h; rw [List.foldl_cons]; exact ih (sAdd_in h e.1 p e.2 hp)
+
+theorem sliceIn_members (t : List (Nat × Reply (List (Nat × Nat)))) (all : List Nat) (ms : List Nat)
+    (hsub : ∀ p ∈ ms, p ∈ all) :
+    ∀ {m : List (Nat × List (Nat × Nat))}, sliceIn all m →
+    sliceIn all (ms.foldl (fun m p =>
+      match replyOf t p with
+      | .ok l => l.foldl (fun m e => sAdd m e.1 p e.2) m
+      | _ => m) m) := by
+  induction ms with
+  | nil => intro m h; exact h
+  | cons p ps ih =>
+    intro m h
+    rw [List.foldl_cons]
+    apply ih (fun q hq => hsub q (List.mem_cons_of_mem _ hq))
+    cases replyOf t p with
+    | ok l => exact sliceIn_report p (hsub p (by simp)) l h
+    | err => exact h
+    | auth => exact h
+
+theorem sliceIn_errors (all : List Nat) (ps : List Nat) (hsub : ∀ p ∈ ps, p ∈ all) :
+    ∀ {m : List (Nat × List (Nat × Nat))}, sliceIn all m →
+    sliceIn all (ps.foldl (fun m p => m.map (fun e => (e.1, gAdd e.2 p stClusterError))) m) := by
+  induction ps with
+  | nil => intro m h; exact h
+  | cons p t ih =>
+    intro m h
+    rw [List.foldl_cons]
+    apply ih (fun q hq => hsub q (List.mem_cons_of_mem _ hq))
+    intro e he q hq
+    obtain ⟨x, hx, rfl⟩ := List.mem_map.mp he
+    rcases mem_keys_gAdd hq with rfl | h'
+    · exact hsub _ (by simp)
+    · exact h x hx q h'
+
+theorem globalSlice_in (i : GSliceInput) :
+    sliceIn (if i.follower then [i.self] else i.members) (globalSlice i) := by
+  unfold globalSlice
+  refine sliceIn_errors _ _ (fun p hp => (List.mem_filter.mp hp).1) ?_
+  exact sliceIn_members _ _ _ (fun _ h => h) (fun _ h => by cases h)
+
+/-- a member's listing of fresh, distinct CIDs is appended entry by entry -/
+theorem report_fresh (p : Nat) : ∀ (l : List (Nat × Nat)) (m : List (Nat × List (Nat × Nat))),
+    (l.map (·.1)).Nodup → (∀ e ∈ l, e.1 ∉ ckeys m) →
+    l.foldl (fun m e => sAdd m e.1 p e.2) m = m ++ l.map (fun e => (e.1, [(p, e.2)]))
+  | [], m, _, _ => by simp
+  | e :: t, m, hn, hd => by
+    rw [List.foldl_cons]
+    have hfresh : ¬ (m.any (fun x => x.1 == e.1) = true) := by
+      intro h
+      rw [List.any_eq_true] at h
+      obtain ⟨x, hx, hxe⟩ := h
+      exact hd e (by simp) (by unfold ckeys; exact List.mem_map.mpr ⟨x, hx, by simpa using hxe⟩)
+    have hs : sAdd m e.1 p e.2 = m ++ [(e.1, [(p, e.2)])] := by
+      unfold sAdd; rw [if_neg hfresh]; simp [gAdd]
+    rw [hs]
+    rw [List.map_cons, List.nodup_cons] at hn
+    rw [report_fresh p t _ hn.2 ?_]
+    · simp
+    · intro x hx hmem
+      unfold ckeys at hmem
+      rw [List.map_append, List.mem_append] at hmem
+      rcases hmem with h | h
+      · exact hd x (List.mem_cons_of_mem _ hx) h
+      · simp only [List.map_cons, List.map_nil, List.mem_singleton] at h
+        exact hn.1 (h ▸ List.mem_map.mpr ⟨x, hx, rfl⟩)
+
 end CV.C06
